@@ -77,7 +77,7 @@ def generate(R, tier, focus):
         cfg['n_cat_given'] = True
         # in-memory catalogs are user objects: they may carry their own `filters` attribute or their own region
         cfg['cat_filters_attr'] = R.random() < 0.3
-        cfg['list_region'] = R.choice((False, True, True, 'other', 'permuted'))
+        cfg['list_region'] = R.choice((False, True, True, 'other', 'permuted', 'other_mags'))
         cfg['list_region_perm_seed'] = R.randint(0, 10 ** 6)
     cfg['low_mag_unfiltered'] = False
     cfg['share_region_object'] = R.random() < 0.5
@@ -396,6 +396,11 @@ class FcWorld:
                 rl[key] = list(rl[key])
                 _random.Random(cfg.get('list_region_perm_seed', 0)).shuffle(rl[key])
                 creg = build.make_region(rl, scn['mags'])
+            elif lr == 'other_mags':
+                # same cells, other magnitude bins (the catalogs were gridded for something else before)
+                e = scn['mags']['edges']
+                e2 = e[::2] if len(e) >= 3 else list(e) + [gen.dec(e[-1] + scn['mags']['dm'], 6)]
+                creg = build.make_region(scn['region'], dict(scn['mags'], edges=e2))
             else:
                 creg = build.make_region(big_region(scn['region']), scn['mags'])
             ckw = {}
@@ -624,6 +629,7 @@ def _execute(scn, ctx, store, rng, clock, collect_results):
     prev_state = abstract_state(fc, J)
     ctx.state(prev_state)
     run_results = []
+    held = []           # (op index, test, result object, rendering when returned): results the caller keeps
     other_fc = [None]
     for oi, op in enumerate(scn['ops']):
         kind = op['op']
@@ -779,6 +785,7 @@ def _execute(scn, ctx, store, rng, clock, collect_results):
                 collect_results.append((oi, name, rs[1]))
             if rs[1] is not None:
                 run_results.append(rs[1])
+                held.append((oi, name, rs[1], hexf([vs['status'], vs['obs'], vs['quantile'], vs['dist']])))
             if (vs is None) != (vt is None):
                 ctx.violate('C13', 'evaluation_vs_twin', '%s:none-vs-result' % name, {'op': oi})
             elif vs is not None:
@@ -790,6 +797,12 @@ def _execute(scn, ctx, store, rng, clock, collect_results):
             if model is not None and ctx.wants('C10'):
                 check_c10(ctx, scn, model, name, op, vs, calls_s, oi)
         # ---- invariants after every op --------------------------------------------------------
+        for oi0, n0, res0, ren0 in held:
+            v0 = result_view(res0)
+            if hexf([v0['status'], v0['obs'], v0['quantile'], v0['dist']]) != ren0:
+                ctx.violate('C10' if ctx.focus == 'C10' else 'C13', 'result_stability',
+                            '%s:result-held-by-caller-changed-by-later-call' % n0, {'op': oi0, 'changed_after_op': oi})
+                return
         if stats['completed'] > completed_before:
             observed_complete += stats['completed'] - completed_before
             ctx.count('rare:streamed_pass_completed')
